@@ -24,6 +24,10 @@ if [ -f "$STATS" ] && grep -q "\"key\": \"$KEY\"" "$STATS"; then
   grep -q '"findings": \[\]' "$STATS" && exit 0 || exit 1
 fi
 LOG=/verif/target/fuzz-$TARGET.log
+# the deterministic replay binary must be built from the same tree as the fuzz target
+if ! (cd "$CRATE" && cargo build --release --offline -q) >"$LOG.replay-build" 2>&1; then
+  echo "fuzz.sh: BUILD FAILED (replay binary), see $LOG.replay-build"; exit 2
+fi
 if ! (cd "$CRATE" && cargo +nightly fuzz build "$TARGET") >"$LOG" 2>&1; then
   echo "fuzz.sh: BUILD FAILED, see $LOG"; tail -5 "$LOG"; exit 2
 fi
